@@ -130,6 +130,31 @@ class C14(DevProp):
                             ev += [k(third, 1)] + tapn + [k(third, 0), k(code[partner], 1)] + tapn + [k(code[partner], 0)]
                         ev += [k(code[comp], 0)] + tapn + [k(code[comp], 1), k(code[comp], 0)] + tapn
                         cases.append({"cfg": cfg, "abs": [], "events": ev, "tag": "after-fire"})
+        # every release path must take the key out of the "down" set: a sequence key that is a note key in one mapping and has no role in
+        # another one is pressed, the mapping is changed while it is held (its release then goes through the stale-note path), and later
+        # the remaining sequence key(s) are pressed alone (must not fire, must act normally); then the full sequence (must fire)
+        for cmode in devgen.CMODES:
+            for chg in ("mapping_up", "mapping_down", "mapping"):
+                for ekind in ("note", "other", "panic", "two"):
+                    S, S2, N, E = 56, 42, 16, {"note": 17, "other": 1, "panic": 67, "two": 17}[ekind]
+                    m0 = [{"sub": "", "code": N, "note": 60, "off": 0}, {"sub": "", "code": 17, "note": 62, "off": 0},
+                          {"sub": "", "code": S, "note": 54, "off": 0}, {"sub": "", "code": S2, "note": 55, "off": 2}]
+                    m1 = m0[:2]
+                    cfg = {"mappings": [{"name": "M0", "midi": m1, "analog": [], "dz": [], "defdz": [], "subs": []},
+                                        {"name": "M1", "midi": m0, "analog": [], "dz": [], "defdz": [], "subs": []},
+                                        {"name": "M2", "midi": m1, "analog": [], "dz": [], "defdz": [], "subs": []}],
+                           "actions": [{"code": 65, "action": "mapping_up"}, {"code": 66, "action": "mapping_down"}, {"code": 68, "action": "mapping"},
+                                       {"code": 67, "action": "panic"}],
+                           "exitseq": [S, E] + ([S2] if ekind == "two" else []), "cmode": cmode, "octave": 0, "semitone": 0, "channel": 1,
+                           "mapping": 1, "velocity": 64}
+                    ccode = {"mapping_up": 65, "mapping_down": 66, "mapping": 68}[chg]
+                    back = {"mapping_up": 66, "mapping_down": 65, "mapping": 65}[chg]
+                    held = [S] + ([S2] if ekind == "two" else [])
+                    ev = [k(c, 1) for c in held] + [k(ccode, 1), k(ccode, 0)] + [k(c, 0) for c in held]
+                    ev += [k(N, 1), k(N, 0), k(E, 1), k(E, 0), k(N, 1), k(E, 1), k(E, 0), k(N, 0)]          # E alone: no signal, normal behaviour
+                    ev += [k(back, 1), k(back, 0)] + [k(c, 1) for c in held] + [k(E, 1)] + [k(c, 0) for c in held] + [k(E, 0)]   # fires
+                    ev += [k(E, 1), k(E, 0)]
+                    cases.append({"cfg": cfg, "abs": [], "events": ev, "tag": "stale-release-of-sequence-key"})
         return cases
 
     def exit_config(self, rng, L):
